@@ -668,6 +668,12 @@ func (r *Request) do() (resp *Response, err error) {
 		} else {
 			resp, err = r.client.roundTrip(r)
 		}
+		if resp == nil { // a wrapping RoundTripper may return (nil, err)
+			resp = &Response{Request: r}
+		}
+		if err != nil && resp.Err == nil {
+			resp.Err = err
+		}
 
 		// Determine if the error is from a canceled context.
 		// Store it here so it doesn't get lost when processing the AfterResponse middleware.
